@@ -781,4 +781,139 @@ theorem parse_marshal_parse (j : Json) (s : Schema) (h : parseSchema j = .ok s) 
   rw [h]; exact marshal_parse s (parse_wf j s h hg)
 
 
+/-! introduction rules for `Lay` (convenient for concrete documents) -/
+theorem LayM.cons {x k v v' ms r} (h1 : Lay x v v') (h2 : LayM x ms r) : LayM x ((k, v) :: ms) ((k, v') :: r) := by
+  simp only [LayM]; exact ⟨v', r, rfl, h1, h2⟩
+theorem LayM.nil {x} : LayM x [] [] := by simp [LayM]
+theorem LayL.cons {x a b as bs} (h1 : Lay x a b) (h2 : LayL x as bs) : LayL x (a :: as) (b :: bs) := by
+  simp only [LayL]; exact ⟨b, bs, rfl, h1, h2⟩
+theorem Lay.arr {x xs ys} (h : LayL x xs ys) : Lay x (.arr xs) (.arr ys) := by
+  simp only [Lay]; exact ⟨ys, rfl, h⟩
+theorem Lay.obj {x ms ms1 ex ms'} (h1 : LayM x ms ms1) (h2 : List.Perm (ms1 ++ ex) ms')
+    (h3 : Extras (ms1.map (·.1)) ex) (h4 : x = false → ex = []) : Lay x (.obj ms) (.obj ms') := by
+  simp only [Lay]; exact ⟨ms1, ex, ms', rfl, h1, h2, h3, h4⟩
+theorem Extras.nil {ks} : Extras ks [] := ⟨by simp, by simp⟩
+
+/-! ## Non-vacuity: concrete nested schemas and documents -/
+
+/-- record { f : array of map of union [null, long(timestamp-micros), enum E {A,B}, fixed F 16] ; g : string }
+— union inside map inside array inside record -/
+def exSchema : Schema :=
+  .mk "record" (some (.mk "" "" "r" "a.b"
+    [ .mk "f" (.mk "array" (some (.mk "" "" "" "" []
+        (.mk "map" (some (.mk "" "" "" "" [] Schema.zero
+          (.mk "union" none
+            [ Schema.prim "null",
+              .mk "long" (some (.mk "" "timestamp-micros" "" "" [] Schema.zero Schema.zero 0 [])) [],
+              .mk "enum" (some (.mk "" "" "E" "" [] Schema.zero Schema.zero 0 ["A", "B"])) [],
+              .mk "fixed" (some (.mk "" "" "F" "" [] Schema.zero Schema.zero 16 [])) [] ])
+          0 [])) [])
+        Schema.zero 0 [])) []),
+      .mk "g" (Schema.prim "string") ]
+    Schema.zero Schema.zero 0 [])) []
+
+example : WF exSchema := by decide
+
+/-- the hypotheses of `marshal_parse` are satisfiable on a nested schema, and the conclusion is
+the expected one (evaluated, not assumed) -/
+example : parseSchema (marshalSchema exSchema) = .ok exSchema := marshal_parse exSchema (by decide)
+
+/-- the same schema written by hand: members shuffled at every level, unknown attributes (`doc`,
+`default` with a nested object and array, `aliases`, `order`, `precision`, case variants `Type` /
+`NAME`) sprinkled in -/
+def exDoc : Json :=
+  .obj [ ("doc", .str "a record"),
+    ("fields", .arr [
+      .obj [ ("default", .obj [("x", .arr [.num 1, .null, .obj [("type", .str "inner")]])]),
+             ("type", .obj [ ("items", .obj [ ("values", .arr [
+                 .str "null",
+                 .obj [("logicalType", .str "timestamp-micros"), ("precision", .numRaw "1e3"), ("type", .str "long")],
+                 .obj [("symbols", .arr [.str "A", .str "B"]), ("name", .str "E"), ("type", .str "enum"), ("aliases", .arr [.str "EE"])],
+                 .obj [("size", .num 16), ("Type", .str "ignored"), ("type", .str "fixed"), ("name", .str "F")] ]),
+               ("type", .str "map") ]),
+               ("type", .str "array"), ("NAME", .bool true) ]),
+             ("name", .str "f"), ("order", .str "ascending") ],
+      .obj [ ("type", .str "string"), ("name", .str "g") ] ]),
+    ("namespace", .str "a.b"), ("type", .str "record"), ("aliases", .arr []), ("name", .str "r") ]
+
+example : parseSchema exDoc = .ok exSchema := by rfl
+example : exDoc.isSchemaDoc = true ∧ exDoc.dupFree = true := by decide
+/-- `parse_wf` and `parse_marshal_parse` apply to it -/
+example : parseSchema (marshalSchema exSchema) = parseSchema exDoc :=
+  parse_marshal_parse exDoc exSchema (by rfl) (by decide)
+
+/-- `unknown_attr`, instantiated: an unknown member with a nested value in the middle of a record -/
+example :
+    PResult.opt (parseSchema (.obj ([("type", .str "fixed")] ++ ("default", .obj [("a", .arr [.null])]) :: [("size", .num 4)])))
+      = PResult.opt (parseSchema (.obj ([("type", .str "fixed")] ++ [("size", .num 4)]))) :=
+  unknown_attr _ _ "default" _ (by decide) (by decide) (by decide)
+
+/-- `key_order`, instantiated at depth 2 (inner object permuted inside an outer permuted object) -/
+example : JPerm
+    (.obj [("type", .str "array"), ("items", .obj [("type", .str "map"), ("values", .str "int")])])
+    (.obj [("items", .obj [("values", .str "int"), ("type", .str "map")]), ("type", .str "array")]) :=
+  Lay.obj (ex := [])
+    (LayM.cons (Lay_refl _) (LayM.cons (Lay.obj (ex := []) (LayM_refl _) (List.Perm.swap _ _ _) Extras.nil (fun _ => rfl)) LayM.nil))
+    (List.Perm.swap _ _ _) Extras.nil (fun _ => rfl)
+
+/-- `structure_preserved`, instantiated: a `fixed` schema written with an extra attribute, in a
+different order -/
+example : PResult.opt (parseSchema
+    (.obj [("size", .num 16), ("doc", .str "sixteen bytes"), ("type", .str "fixed"), ("name", .str "F")])) =
+    some (.mk "fixed" (some (.mk "" "" "F" "" [] Schema.zero Schema.zero 16 [])) []) := by
+  apply structure_preserved _ (by decide)
+  show Lay true (.obj [("type", .str "fixed"), ("name", .str "F"), ("size", .num 16)]) _
+  refine Lay.obj (ex := [("doc", .str "sixteen bytes")]) (LayM_refl _) ?_ ⟨?_, by simp⟩ (fun h => by simp at h)
+  · -- [type, name, size, doc] ~ [size, doc, type, name]
+    exact (List.perm_append_comm (l₁ := [("type", Json.str "fixed"), ("name", .str "F")])
+      (l₂ := [("size", .num 16), ("doc", .str "sixteen bytes")]))
+  · intro e he
+    simp only [List.mem_singleton] at he
+    subst he
+    decide
+
+/-! ## Outside `WF` / outside the grammar: what the implementation does (documented, not claimed) -/
+
+/-- The full-strength reading "EVERY schema value produced by parsing re-serialises to a document
+that parses back to it" is false: attributes that do not belong to the type are kept by the parser
+and dropped by the serialiser. -/
+def marshal_parse_full : Prop := ∀ j s, parseSchema j = .ok s → parseSchema (marshalSchema s) = .ok s
+
+/-- witness: `{"type":"record","size":4}` parses (Size = 4) and re-serialises as
+`{"type":"record","fields":[]}` -/
+theorem marshal_parse_full_false : ¬ marshal_parse_full := by
+  intro h
+  have := h (.obj [("type", .str "record"), ("size", .num 4)])
+    (.mk "record" (some (.mk "" "" "" "" [] Schema.zero Schema.zero 4 [])) []) rfl
+  have e : parseSchema (marshalSchema (.mk "record" (some (.mk "" "" "" "" [] Schema.zero Schema.zero 4 [])) [])) =
+      .ok (.mk "record" (some (.mk "" "" "" "" [] Schema.zero Schema.zero 0 [])) []) := rfl
+  rw [e] at this
+  simp at this
+
+/-- the empty union `[]` is accepted; its value `{Type:"union"}` serialises as the *string* "union" -/
+example : parseSchema (.arr []) = .ok (.mk "union" none []) ∧ marshalSchema (.mk "union" none []) = .str "union" :=
+  ⟨rfl, rfl⟩
+example : ¬ WF (.mk "union" none []) := by decide
+
+/-- accepted although hardly schemas: `{}`, `{"type":null}`, a record field `null` -/
+example : parseSchema (.obj []) = .ok (.mk "" (some SchemaObject.zero) []) := by rfl
+example : parseSchema (.obj [("type", .null)]) = .ok (.mk "" (some SchemaObject.zero) []) := by rfl
+example : parseSchema (.obj [("type", .str "record"), ("fields", .arr [.null])]) =
+    .ok (.mk "record" (some (.mk "" "" "" "" [SchemaField.zero] Schema.zero Schema.zero 0 [])) []) := by rfl
+
+/-- `key_order` cannot be stated with the error class: which defect is reported first depends on
+the order of the members -/
+theorem key_order_error_class_differs :
+    parseSchema (.obj [("type", .num 1), ("name", .num 2)]) = .error (.wrongKind "type") ∧
+    parseSchema (.obj [("name", .num 2), ("type", .num 1)]) = .error (.wrongKind "name") := ⟨rfl, rfl⟩
+
+/-- malformed instances (non-vacuity of the `malformed_*` theorems) -/
+example : PResult.opt (parseSchema (.obj [("type", .str "fixed"), ("name", .str "x"), ("size", .str "4")])) = none :=
+  malformed_attr _ "size" (.str "4") (by simp) (by decide)
+example : PResult.opt (parseSchema (.obj [("type", .obj [("type", .str "array"), ("items", .str "int")])])) = none :=
+  malformed_attr _ "type" (.obj [("type", .str "array"), ("items", .str "int")]) (by simp) (by decide)
+example : PResult.opt (parseSchema (.obj [("type", .str "int"), ("doc", .num 1), ("doc", .num 2)])) = none :=
+  malformed_duplicate _ (by decide)
+
+
 end Avro.C14
